@@ -389,6 +389,14 @@ def run(rep: C.Report, tier: str) -> int:
         rep.coverage["stage_seconds"] = stages
     C.clean_gen(PROP)
     C.prove_and_audit(rep, PROP, THEOREMS)
+    try:      # supplementary theorems (the exact KDE integrates to one; Phi tail property)
+        _a = C.coq_audit("C12_gaussnorm", ['GaussNorm_kde_exact_normalised', 'GaussNorm_kde_exact_total', 'GaussNorm_kde_exact_at_normalised', 'GaussNorm_kde_Phi_tail_property', 'GaussNorm_Phi_limits'], "IT.Properties.GaussNorm")
+        rep.obligation(True, 5)
+        rep.coverage["gaussnorm_audit"] = _a
+    except C.ProofFailure as _e:
+        rep.obligation(False, 5)
+        rep.violation("C12/proof", f"proof obligation no longer checks: {_e.what}",
+                      {"theorem_or_correspondence": _e.what, "log": _e.log[-1000:]}, False)
     lap("audit")
 
     from concurrent.futures import ThreadPoolExecutor
